@@ -442,6 +442,140 @@ class Module:
             self.out.append(f"@[pygen] def {cls}.{a.lstrip('_')}_stored ({binders} : Py.Kind) : Except PyErr Py.Kind := {tr(found[a])}")
             self.out.append("")
 
+    # -- T3: accumulator loops over a sequence of integers ---------------------------------------------------
+    def translate_scan_function(self, name: str, lean_name: str, seq_param: str, enum_cls: str | None = None,
+                                helpers: dict[str, str] | None = None) -> None:
+        """T3: a module-level function of the shape
+
+               <local> = <const>            (one or more state variables)
+               for i in range(<const>, len(<seq>)):
+                   <body: local assignments, if/elif/else, `continue`, `return <const>`>
+               return <const>
+
+        over a sequence of integers (timestamps as tick values) -> `Py.forRange` with the state variables as loop state.
+        Expressions: names, int/bool constants, members of `enum_cls`, `seq[i]` / `seq[i - c]`, ==, !=, <, <=, >, >=,
+        and calls to already translated integer helpers (`helpers`: python name -> Lean name)."""
+        helpers = helpers or {}
+        fn = self.find_func(None, name)
+        body = [st for st in fn.body if not (isinstance(st, ast.Expr) and isinstance(st.value, ast.Constant))]
+        enum = dict(getattr(self, "enums", {}).get(enum_cls, [])) if enum_cls else {}
+
+        def fail(msg, node):
+            raise Untranslatable(f"{name}: {msg}", node, self.path)
+
+        def const(e):
+            if isinstance(e, ast.Constant) and isinstance(e.value, bool):
+                return ("bool", "true" if e.value else "false")
+            if isinstance(e, ast.Constant) and isinstance(e.value, int):
+                return ("int", lit(e.value))
+            if isinstance(e, ast.Attribute) and isinstance(e.value, ast.Name) and e.value.id == enum_cls and e.attr in enum:
+                return ("int", lit(enum[e.attr]))
+            return None
+
+        # state initialisation, the loop, the final return
+        state: list[tuple[str, str]] = []
+        k = 0
+        while k < len(body) and isinstance(body[k], ast.Assign):
+            st = body[k]
+            c = const(st.value)
+            if len(st.targets) != 1 or not isinstance(st.targets[0], ast.Name) or c is None or c[0] != "int":
+                fail("state initialisation must be `name = <int constant>`", st)
+            state.append((st.targets[0].id, c[1]))
+            k += 1
+        if k + 2 != len(body) or not isinstance(body[k], ast.For) or not isinstance(body[k + 1], ast.Return):
+            fail("expected `for` followed by a final `return`", fn)
+        loop, final = body[k], body[k + 1]
+        fin = const(final.value)
+        if fin is None:
+            fail("final return must be a constant", final)
+        it = loop.iter
+        if not (isinstance(loop.target, ast.Name) and isinstance(it, ast.Call) and isinstance(it.func, ast.Name) and it.func.id == "range"
+                and len(it.args) == 2 and isinstance(it.args[0], ast.Constant) and isinstance(it.args[0].value, int) and it.args[0].value >= 0
+                and ast.unparse(it.args[1]) == f"len({seq_param})") or loop.orelse:
+            fail("loop must be `for i in range(<const>, len(seq))`", loop)
+        ivar, lo = loop.target.id, it.args[0].value
+        svars = [n for n, _ in state]
+
+        def expr(e, locs):
+            c = const(e)
+            if c is not None:
+                return c
+            if isinstance(e, ast.Name):
+                if e.id in locs or e.id in svars:
+                    return ("int", e.id)
+                fail(f"unknown name {e.id}", e)
+            if isinstance(e, ast.Subscript) and isinstance(e.value, ast.Name) and e.value.id == seq_param:
+                ix = e.slice
+                if isinstance(ix, ast.Name) and ix.id == ivar:
+                    return ("int", f"(Py.seqAt {seq_param} {ivar})")
+                if (isinstance(ix, ast.BinOp) and isinstance(ix.op, ast.Sub) and isinstance(ix.left, ast.Name) and ix.left.id == ivar
+                        and isinstance(ix.right, ast.Constant) and isinstance(ix.right.value, int) and 0 <= ix.right.value <= lo):
+                    return ("int", f"(Py.seqAt {seq_param} ({ivar} - {ix.right.value}))")
+                fail("subscript must be seq[i] or seq[i - c] with c <= the loop's start", e)
+            if isinstance(e, ast.Call) and isinstance(e.func, ast.Name) and e.func.id in helpers and not e.keywords:
+                args = [expr(a, locs) for a in e.args]
+                if any(t != "int" for t, _ in args):
+                    fail("helper arguments must be integers", e)
+                return ("int", "(" + " ".join([helpers[e.func.id]] + [x for _, x in args]) + ")")
+            fail(f"unsupported expression {ast.unparse(e)}", e)
+
+        CMP = {ast.Eq: "=", ast.NotEq: "≠", ast.Lt: "<", ast.LtE: "≤", ast.Gt: ">", ast.GtE: "≥"}
+
+        def cond(e, locs):
+            if isinstance(e, ast.Compare) and len(e.ops) == 1 and type(e.ops[0]) in CMP:
+                (ta, a), (tb, b) = expr(e.left, locs), expr(e.comparators[0], locs)
+                if ta != tb:
+                    fail("comparison of different types", e)
+                return f"{a} {CMP[type(e.ops[0])]} {b}"
+            if isinstance(e, ast.UnaryOp) and isinstance(e.op, ast.Not):
+                return f"¬ ({cond(e.operand, locs)})"
+            if isinstance(e, ast.BoolOp):
+                j = " ∧ " if isinstance(e.op, ast.And) else " ∨ "
+                return "(" + j.join(f"({cond(v, locs)})" for v in e.values) + ")"
+            fail(f"unsupported condition {ast.unparse(e)}", e)
+
+        def cont():
+            return ".cont " + (svars[0] if len(svars) == 1 else "(" + ", ".join(svars) + ")")
+
+        def stmts(ss, locs, depth):
+            pad = "  " * depth
+            if not ss:
+                return pad + cont()
+            st, rest = ss[0], ss[1:]
+            if isinstance(st, ast.Continue):
+                return pad + cont()
+            if isinstance(st, ast.Return):
+                c = const(st.value)
+                if c is None or c[0] != fin[0]:
+                    fail("return inside the loop must be a constant of the final return's type", st)
+                return pad + f".ret {c[1]}"
+            if isinstance(st, ast.Assign) and len(st.targets) == 1 and isinstance(st.targets[0], ast.Name):
+                t, v = expr(st.value, locs)
+                if t != "int":
+                    fail("assigned value must be an integer", st)
+                nm = st.targets[0].id
+                return pad + f"let {nm} := {v}\n" + stmts(rest, locs | {nm}, depth)
+            if isinstance(st, ast.If):
+                # statements after the `if` are duplicated into every branch that falls through
+                then = stmts(list(st.body) + rest, set(locs), depth + 1)
+                els = stmts(list(st.orelse) + rest, set(locs), depth + 1)
+                return pad + f"if {cond(st.test, locs)} then\n{then}\n{pad}else\n{els}"
+            fail(f"unsupported statement {type(st).__name__}", st)
+
+        sigma = "Int" if len(svars) == 1 else "(" + " × ".join("Int" for _ in svars) + ")"
+        rho = "Bool" if fin[0] == "bool" else "Int"
+        init = state[0][1] if len(state) == 1 else "(" + ", ".join(v for _, v in state) + ")"
+        pat = svars[0] if len(svars) == 1 else "(" + ", ".join(svars) + ")"
+        code = stmts(list(loop.body), set(), 3)
+        self.out.append(f"/-- generated from `{name}` (accumulator loop over `{seq_param}`) -/")
+        self.out.append(f"@[pygen] def {lean_name} ({seq_param} : List Int) : {rho} :=")
+        self.out.append(f"  match (Py.forRange {lo} ({seq_param}.length - {lo}) ({init} : {sigma})")
+        self.out.append(f"      (fun ({ivar} : Nat) ({pat} : {sigma}) => (show Py.Loop {sigma} {rho} from")
+        self.out.append(code + "))) with")
+        self.out.append("  | .ret r => r")
+        self.out.append(f"  | .cont _ => {fin[1]}")
+        self.out.append("")
+
     def translate_dispatch_branch(self, cls: str, name: str, kind: str, kind_type, lean_name: str,
                                   arg: str = "value") -> FuncInfo:
         """T4: the branch of an `if isinstance(arg, K) ... elif ...` chain selected by `kind`."""
